@@ -112,6 +112,15 @@ def run(ctx):
             spec["alpha"] = max(spec["alpha"], 2.0 ** -10)
             spec["r_hat"] = r.choice([0.25, 0.5])
         X = specs.elem_data(r, cls, n, d, floats=r.random() < 0.3 and cls != "ART1")
+        if cls in ("HypersphereART", "EllipsoidART", "GaussianART", "BayesianART") and r.random() < 0.35:
+            # near-duplicate readings: copies of earlier rows moved by less than 1e-7 (but not 0)
+            k_ = r.randint(1, max(1, n // 2))
+            src = [r.randrange(n) for _ in range(k_)]
+            near = np.clip(X[src] + np.array([[r.choice([-1, 1]) * 2.0 ** -r.choice([24, 26, 30]) for _ in range(X.shape[1])]
+                                              for _ in range(k_)]), 0.0, 1.0)
+            X = np.vstack([X, near])
+            n = len(X)
+            cov.hit("near-duplicate-rows")
         mode = r.choice(MODES)
         # modes that may lower the threshold are excluded from the size bound by the theorem (MT-, finding F20)
         use_reset = r.random() < 0.4
